@@ -196,6 +196,9 @@ func Parse(line string, b literal.Builder) (*Triple, error) {
 	if len(idxp) == 0 || len(idxo) == 0 {
 		return nil, fmt.Errorf("triple.Parse could not split s p o  out of %s", raw)
 	}
+	if idxp[1]-1 > idxo[0]+1 {
+		return nil, fmt.Errorf("triple.Parse could not split s p o  out of %s", raw)
+	}
 	ss, sp, so := raw[0:idxp[0]+1], raw[idxp[1]-1:idxo[0]+1], raw[idxo[1]-1:]
 	s, err := node.Parse(ss)
 	if err != nil {
